@@ -8,11 +8,18 @@ import Spec.UpdateSpec
 namespace MongoModel.Spec
 open MongoModel
 
-/-- a filter made of plain equality conditions only: every key is a non-empty top-level field
-    name (no dot, no leading `$`) and every value is a scalar (null, bool, number, string,
-    datetime, ObjectId — not a sub-document, not an array) -/
+/-- a filter made of plain equality conditions only: every key is a top-level field name (no
+    dot, no leading `$`; the empty name is a field name like any other) and every value is a scalar
+    (null, bool, number, string, datetime, ObjectId — not a sub-document, not an array) -/
 def plainEqualities (ss : Fields) : Bool :=
-  ss.all (fun kv => kv.1 != "" && !kv.1.toList.contains '.' && !kv.1.startsWith "$" && isScalar kv.2)
+  ss.all (fun kv => !kv.1.toList.contains '.' && !kv.1.startsWith "$" && isScalar kv.2)
+
+/-- the equality conditions of a filter, as `_discard_operators` leaves them: operator conditions
+    and `$`-keys are dropped, `{$eq: v}` gives `v`, operators inside an embedded value are removed -/
+def equalities (ss : Fields) : Fields :=
+  match (discardOps (.doc ss)).1 with
+  | .doc fs => fs
+  | _ => []
 
 /-- an operator update: non-empty, every top-level key is an operator -/
 def isOperatorUpdate (u : Fields) : Bool :=
@@ -39,10 +46,9 @@ def prefixFree (ss : Fields) : Prop :=
 
 instance (ss : Fields) : Decidable (prefixFree ss) := by unfold prefixFree; infer_instance
 
-/-- no component of any (dotted) key of the filter is an operator: top-level `$and`, `$or`, … and
-    keys such as `a.$x` are excluded -/
-def noDollarParts (ss : Fields) : Bool :=
-  ss.all (fun kv => (splitDots kv.1).all (fun part => !part.startsWith "$"))
+/-- no top-level key of the filter is an operator (`$and`, `$or`, … are outside these statements) -/
+def noDollarKeys (ss : Fields) : Bool :=
+  ss.all (fun kv => !kv.1.startsWith "$")
 
 /-- the document holds every `field: value` pair of `ss` at its top level -/
 def HoldsAll (ss : Fields) (fs : Fields) : Prop :=
